@@ -10,6 +10,7 @@ decoder returned (or the exception it raised) and the path signature (sequence o
 Leaves are disjoint and cover the start cube: sum(2^free) is checked against the size of the space.
 """
 import sys
+import zlib
 
 
 class Sym(int):
@@ -159,7 +160,7 @@ def explore(decoder, width, fixed, value, out, budget):
                 split = unfixed
                 break
         if split is None:
-            sig = hash(tuple((fn, ln) for _, fn, ln in log))
+            sig = zlib.crc32(repr([(fn, ln) for _, fn, ln in log]).encode())      # stable across runs
             out.append((fixed, value, cls, sig))
             continue
         budget[0] -= 1
